@@ -1,9 +1,102 @@
 import GnpyDriver.JsonUtil
+import GnpyDriver.C11
 import GnpyModel
 /- driver handlers for property C12 (ops are named "c12.<name>") -/
 open Lean
 namespace Gnpy.Drv.C12
+open Gnpy.Route
 
-def handlers : List (String × Handler) := []
+def roadmPred (roadms : List Nat) (n : Nat) : Nat → Bool :=
+  let a : Array Bool := roadms.foldl (fun (acc : Array Bool) r => if r < acc.size then acc.set! r true else acc)
+    (Array.replicate n false)
+  fun v => a.getD v false
+
+/-- pairwise link-disjointness of the returned paths of one synchronisation group -/
+def check (j : Json) : R Json := do
+  let n ← fNat j "n"
+  let roadms ← fList getNat j "roadms"
+  let paths ← fList (getList getNat) j "paths"
+  let isR := roadmPred roadms n
+  let pairs := paths.map (fun p => paths.map (fun q => linkDisjointB isR p q))
+  return jObj [("all", jBool (allDisjointB isR paths)),
+               ("pairs", jList (jList jBool) pairs),
+               ("links", jList (jList (fun (l : Nat × Nat) => Json.arr #[jNat l.1, jNat l.2]))
+                          (paths.map (linksOf isR)))]
+
+/-- `isdisjoint` on the short lists the implementation builds, both directions -/
+def isdisjointH (j : Json) : R Json := do
+  let n ← fNat j "n"
+  let roadms ← fList getNat j "roadms"
+  let p ← fList getNat j "p"
+  let prev ← fList getNat j "p_rev"
+  let q ← fList getNat j "q"
+  let isR := roadmPred roadms n
+  let sp := shortList isR p
+  let sr := shortList isR prev
+  let sq := shortList isR q
+  return jObj [("short_p", jList jNat sp), ("short_q", jList jNat sq), ("short_rev", jList jNat sr),
+               ("direct", jNat (isdisjointPy sp sq)), ("reverse", jNat (isdisjointPy sr sq)),
+               ("link_disjoint", jBool (linkDisjointB isR p q))]
+
+def getReq (j : Json) : R Req := do
+  return { s := ← fNat j "s", t := ← fNat j "t", inc := ← fList getNat j "inc", strict := ← fBool j "strict" }
+
+/-- the pair oracle -/
+def oracle (j : Json) : R Json := do
+  let g ← C11.getGraph j
+  let roadms ← fList getNat j "roadms"
+  let r1 ← getReq (← fld j "r1")
+  let r2 ← getReq (← fld j "r2")
+  let isR := roadmPred roadms g.n
+  let c1 := candPaths g r1.s r1.t
+  let c2 := candPaths g r2.s r2.t
+  return jObj [("exists", jBool (disjointOracle g isR r1 r2)),
+               ("ncand1", jNat c1.length), ("ncand2", jNat c2.length),
+               ("nacc1", jNat (c1.filter (acceptable r1)).length), ("nacc2", jNat (c2.filter (acceptable r2)).length)]
+
+/-- steps 2-5 over candidate indices.
+  ncand: [k_r per request]; groups: [[gid, [r,...]],...]; reqs: request indices in `pathreqlist_disjt` order;
+  dis: [[r, r', [[bool per (i of r, j of r')]]]] ; ok: [[bool per candidate] per request]; strict/hasinc: [bool per request] -/
+def select (j : Json) : R Json := do
+  let ncand ← fList getNat j "ncand"
+  let groups ← fList (fun g => do
+      match ← getArr g with
+      | [a, b] => return (← getNat a, ← getList getNat b)
+      | _ => throw "group [id, [reqs]] expected") j "groups"
+  let reqs ← fList getNat j "reqs"
+  let disL ← fList (fun d => do
+      match ← getArr d with
+      | [a, b, m] => return ((← getNat a, ← getNat b), (← getList (getList getBool) m).map (·.toArray) |>.toArray)
+      | _ => throw "dis [r, r', matrix] expected") j "dis"
+  let ok ← fList (getList getBool) j "ok"
+  let strict ← fList getBool j "strict"
+  let hasinc ← fList getBool j "hasinc"
+  let vid ← fList (getList getNat) j "vid"
+  let vidA := (vid.map (·.toArray)).toArray
+  let nc := ncand.toArray
+  let okA := (ok.map (·.toArray)).toArray
+  let stA := strict.toArray
+  let hiA := hasinc.toArray
+  let disF := fun (c c' : Cand) =>
+    match disL.lookup (c.1, c'.1) with
+    | some m => (m.getD c.2 #[]).getD c'.2 false
+    | none =>
+      match disL.lookup (c'.1, c.1) with
+      | some m => (m.getD c'.2 #[]).getD c.2 false
+      | none => false
+  let inp : SelInput := { ncand := fun r => nc.getD r 0, dis := disF,
+                          okInc := fun c => (okA.getD c.1 #[]).getD c.2 false,
+                          hasStrict := fun r => stA.getD r false, hasInc := fun r => hiA.getD r false,
+                          vid := fun c => (vidA.getD c.1 #[]).getD c.2 0 }
+  let c2 := groups.map (fun g => (g.1, step2 inp g.2))
+  let c3 := step3 inp groups reqs c2
+  let c4 := c3.map (fun (d, combos) => (d, step4 inp combos))
+  let res := selectDisjoint inp groups reqs
+  return jObj [("chosen", jOpt (jList (fun (c : Cand) => Json.arr #[jNat c.1, jNat c.2])) res),
+               ("n2", jList jNat (c2.map (·.2.length))), ("n3", jList jNat (c3.map (·.2.length))),
+               ("n4", jList jNat (c4.map (·.2.length)))]
+
+def handlers : List (String × Handler) :=
+  [("c12.check", check), ("c12.isdisjoint", isdisjointH), ("c12.oracle", oracle), ("c12.select", select)]
 
 end Gnpy.Drv.C12
